@@ -248,6 +248,50 @@ def check_property(prop, tier='quick', seed=0):
             row['id'] = '%s/%s/%s' % (prop, r['proof'], ob['name'])
             ob_rows.append(row)
 
+    # ------------------------------------------- schema lemmas (Lean 4)
+    # code-independent lemmas that compose the per-function obligations
+    # (e.g. init + step + uniqueness => every chunking); re-checked by the
+    # Lean kernel on every run.  A failure is a checker error, not a
+    # violation: the lemma does not mention the code.
+    import shutil
+    import subprocess
+    for modname in R.contract_modules():
+        if prop not in R.props_of_module(modname):
+            continue
+        m = native_contract_module(modname)
+        for lem in getattr(m, 'LEMMAS', []):
+            if prop not in lem['props']:
+                continue
+            t1 = time.time()
+            lean = shutil.which('lean') or '/opt/veriftools/lean/bin/lean'
+            try:
+                r = subprocess.run([lean, os.path.join(VERIF, lem['file'])],
+                                   capture_output=True, text=True,
+                                   timeout=600)
+                ok = r.returncode == 0 and 'error' not in r.stdout \
+                    and 'sorry' not in r.stdout
+                out = (r.stdout + r.stderr)[-600:]
+            except Exception as e:  # lean missing, timeout
+                ok = False
+                out = repr(e)
+            with open(os.path.join(VERIF, lem['file'])) as f:
+                txt = f.read()
+            if 'sorry' in txt or 'axiom ' in txt:
+                ok = False
+                out = 'sorry/axiom in the lemma text'
+            row = {'name': lem['name'], 'status': 'discharged' if ok
+                   else 'error', 'queries': len(lem.get('theorems', [])) or 1,
+                   'discharged': (len(lem.get('theorems', [])) or 1)
+                   if ok else 0, 'failed': [], 'n_failed': 0,
+                   'undecided': [], 'time_s': round(time.time() - t1, 2),
+                   'backends': ['lean-4 kernel'], 'proof': 'lean:' +
+                   lem['file'], 'module': modname,
+                   'id': '%s/lean/%s' % (prop, lem['name'])}
+            ob_rows.append(row)
+            if not ok:
+                rep.crashes.append('Lean lemma %s did not check: %s' % (
+                    lem['file'], out))
+
     # ------------------------------------------------------------ canaries
     canary_rows = []
     for ci, (modname, c) in enumerate(canaries):
